@@ -2,6 +2,7 @@
    Only statements, [exact] and [Print Assumptions] live here. *)
 From Coq Require Import List ZArith Reals.
 From SR Require Import Model.Shield Proofs.ShieldProofs.
+From SR Require Proofs.FormulasShieldProofs.
 Import ListNotations.
 
 (* the whole property (see Proofs/ShieldProofs.v, Part 4, for the five clauses) *)
@@ -61,6 +62,14 @@ Theorem C16_float_signs :
        (PrimFloat.is_nan hp = false -> PrimFloat.ltb PrimFloat.zero hp = true)).
 Proof. exact absorb_F. Qed.
 Print Assumptions C16_float_signs.
+
+(* The translator tie: the order of the formula terms, the strength formula of AddShield and the
+   loop of AbsorbDamage are, for every numeric instance and every argument, EQUAL to the definitions
+   go2coq generates from shield/add.go and shield/absorb.go (Gen/FormulasShield.v; the conjunction
+   is spelled out in Proofs/FormulasShieldProofs.v, C16_formulas_statement). *)
+Theorem C16_model_formulas_are_the_source : FormulasShieldProofs.C16_formulas_statement.
+Proof. exact FormulasShieldProofs.C16_formulas_hold. Qed.
+Print Assumptions C16_model_formulas_are_the_source.
 
 Theorem C16_nonvacuous :
   get_sh (exec FOps (init (N := PrimFloat.float)) demo_ops) 1%Z = demo_shields_after /\
